@@ -873,7 +873,10 @@ def synthetic_records(rng, n=3000, dt=0.01, nrec=1):
 def amplitudes(res):
     """all numeric arrays of a processing result"""
     out = []
-    if hasattr(res, "hvsrs"):
+    if isinstance(res, dict):
+        for k in sorted(res):
+            out += [np.asarray(res[k].frequency), np.asarray(res[k].amplitude)]
+    elif hasattr(res, "hvsrs"):
         for h in res.hvsrs:
             out += [np.asarray(h.frequency), np.asarray(h.amplitude)]
         out.append(np.asarray(res.azimuths, dtype=float))
@@ -892,6 +895,9 @@ def probe_processing(ctx, rng, n):
     plans = []
     import hvsrpy.processing as pr
     methods = sorted(pr.TRADITIONAL_PROCESSING_REGISTER)
+    methods = [m for m in methods if owner_class(m) != "HvsrTraditionalProcessingSettings"] + \
+              [m for m in methods if owner_class(m) == "HvsrTraditionalProcessingSettings"]
+    j = 0
     for i in range(n):
         sm = {"D": [["operator", str(rng.choice(["konno_and_ohmachi", "parzen", "log_rectangular", "savitzky_and_golay"][:3]))],
                     ["bandwidth", fl(float(rng.choice([20., 40., 0.5])))], ["center_frequencies_in_hz", fcs if rng.random() < 0.7 else {"L": fcs["A"]} if rng.random() < 0.5 else {"U": fcs["A"]}]]}
@@ -900,9 +906,11 @@ def probe_processing(ctx, rng, n):
         elif sm["D"][0][1] != "konno_and_ohmachi":
             sm["D"][1][1] = fl(0.5)
         wtw = {("L" if rng.random() < 0.5 else "U"): ["tukey", fl(float(rng.choice([0.1, 0.2, 0.05])))]}
-        m = methods[i % len(methods)]
-        kind = i % 5
+        kind = i % 6
+        pre_cn = "HvsrPreProcessingSettings"
         if kind in (0, 1, 2):
+            m = methods[j % len(methods)]
+            j += 1
             cn = owner_class(m)
             kw = dict(window_type_and_width=wtw, smoothing=sm, method_to_combine_horizontals=m)
             if cn.endswith("SingleAzimuthProcessingSettings"):
@@ -913,18 +921,24 @@ def probe_processing(ctx, rng, n):
         elif kind == 3:
             cn = "HvsrAzimuthalProcessingSettings"
             kw = dict(window_type_and_width=wtw, smoothing=sm, azimuths_in_degrees=rng.choice([{"A": [0, 45, 90]}, {"L": [fl(10.0), fl(100.0)]}, {"U": [0, 60, 120]}]))
-        else:
+        elif kind == 4:
             cn = "HvsrDiffuseFieldProcessingSettings"
+            kw = dict(window_type_and_width=wtw, smoothing=sm)
+        else:
+            cn, pre_cn = "PsdProcessingSettings", "PsdPreProcessingSettings"
             kw = dict(window_type_and_width=wtw, smoothing=sm)
         pre_kw = dict(window_length_in_seconds=fl(float(rng.choice([10., 7.5]))),
                       filter_corner_frequencies_in_hz={("L" if rng.random() < 0.5 else "U"): [None if rng.random() < 0.5 else fl(0.3), None if rng.random() < 0.5 else fl(30.0)]},
                       detrend=str(rng.choice(["linear", "constant"])), orient_to_degrees_from_north=fl(float(rng.choice([0., 15.]))))
-        plans.append((cn, kw, pre_kw))
-    for k, (cn, kw, pre_kw) in enumerate(plans):
+        if pre_cn == "PsdPreProcessingSettings":
+            pre_kw["window_type_and_width"] = wtw
+            pre_kw["differentiate"] = bool(rng.integers(0, 2))
+        plans.append((cn, kw, pre_kw, pre_cn))
+    for k, (cn, kw, pre_kw, pre_cn) in enumerate(plans):
         recs_seed = int(rng.integers(0, 2 ** 31))
         fn1, fn2 = os.path.join(WORK, f"c15_pp_{k}.json"), os.path.join(WORK, f"c15_pr_{k}.json")
         try:
-            pre = s.HvsrPreProcessingSettings(**{p: build(v) for p, v in pre_kw.items()})
+            pre = getattr(s, pre_cn)(**{p: build(v) for p, v in pre_kw.items()})
             pro = getattr(s, cn)(**{p: build(v) for p, v in kw.items()})
             pre.save(fn1)
             oio.write_settings_object_to_file(pro, fn2)
@@ -933,7 +947,7 @@ def probe_processing(ctx, rng, n):
                 pro2 = getattr(s, cn)()
                 pro2.load(fn2)
             else:
-                pre2 = s.HvsrPreProcessingSettings()
+                pre2 = getattr(s, pre_cn)()
                 pre2.load(fn1)
                 pro2 = oio.read_settings_object_from_file(fn2)
             outs = []
@@ -943,12 +957,12 @@ def probe_processing(ctx, rng, n):
                     r = hvsrpy.process(hvsrpy.preprocess(recs, a), b)
                 outs.append(amplitudes(r))
             ctx.supporting["probe:processing_with_reloaded_settings"] = ctx.supporting.get("probe:processing_with_reloaded_settings", 0) + 1
-            ctx.count("process:" + cn)
-            same = type(pro2) is type(pro) and len(outs[0]) == len(outs[1]) and all(
+            ctx.count("process:" + cn + (":" + kw["method_to_combine_horizontals"] if "method_to_combine_horizontals" in kw else ""))
+            same = type(pro2) is type(pro) and type(pre2) is type(pre) and len(outs[0]) == len(outs[1]) and all(
                 x.shape == y.shape and x.tobytes() == y.tobytes() for x, y in zip(*outs))
             if not same:
                 ctx.violation("processing-with-reloaded-settings-identical",
-                              dict(case=dict(cls=cn, kwargs=kw, pre_kwargs=pre_kw, records_seed=recs_seed, reloaded_class=type(pro2).__name__),
+                              dict(case=dict(cls=cn, kwargs=kw, pre_cls=pre_cn, pre_kwargs=pre_kw, records_seed=recs_seed, reloaded_class=type(pro2).__name__),
                                    max_abs_diff=str(max([float(np.max(np.abs(x - y))) for x, y in zip(*outs) if x.shape == y.shape] + [0.0]))),
                               seam="Settings.save/load + hvsrpy.process")
         finally:
@@ -958,6 +972,12 @@ def probe_processing(ctx, rng, n):
 
 
 # ----------------------------------------------------------------------------
+def build_driver():
+    rc, log = lake(["build", EXE])
+    if rc != 0:
+        raise InfraError("cannot build " + EXE + ":\n" + log[-2000:])
+
+
 def run(ctx):
     ctx.rule = ("cases = histories of 6..22 operations over the eight real settings classes, generated online: caller creates a mutable object | "
                 "construct (arguments omitted / literals incl. ndarray, list, tuple, None / caller variables) | in-place element write through an object or "
@@ -970,6 +990,7 @@ def run(ctx):
     ctx.assumptions += ["noninterference covers histories in which a caller-held container is not passed to an alias-stored parameter "
                         "(fft_settings, instrument_transfer_function: known findings C15-c, C15-d) and is not assigned to an attribute by the caller"]
     rng = np.random.default_rng(ctx.seed)
+    build_driver()
     default_objects()
     restore_defaults()
     # 0. deterministic witnesses of the known findings
@@ -1008,7 +1029,7 @@ def run(ctx):
         ctx.supporting["model_dispatch_on_real_files"] = ctx.supporting.get("model_dispatch_on_real_files", 0) + 1
         if got != cn:
             ctx.violation("reader-returns-same-class", dict(case=dict(cls=cn, kwargs=kw), model_dispatch=got), seam="Model dispatch vs file content")
-    probe_processing(ctx, rng, ctx.budget(15, 120))
+    probe_processing(ctx, rng, ctx.budget(18, 120))
     fresh_objects_pristine(ctx, dict(stage="end of run"))
     cleanup_work()
 
@@ -1025,6 +1046,7 @@ def cleanup_work():
 
 def replay(case):
     """re-execute one stored history (or probe case) on the implementation and on the model"""
+    build_driver()
     default_objects()
     restore_defaults()
     if "ops" not in case:
